@@ -118,6 +118,11 @@ func (p *Path) callFunction(fn *ssa.Function, args []Value, binds []Value, calle
 	if in, ok := lookupIntrinsic(fn); ok {
 		return in(p, fn, args)
 	}
+	if pin, ok := partialIntrinsics[fn.String()]; ok {
+		if v, handled := pin(p, fn, args); handled {
+			return v
+		}
+	}
 	if p.stubs != nil && fn.Parent() == nil {
 		if s, ok := p.stubs[fn.Name()]; ok && fn.Signature.Recv() == nil {
 			return p.callValue(s, args, caller, nil)
